@@ -18,9 +18,16 @@ def build(spec, with_graph=True, stale_prebind=True):
     verts = [I.Vertex(v["id"], I.mk_pose(v["kind"], v["pose"]), (np.bool_(True) if k % 2 == 0 else 1) if v.get("fixed", False) else False) for k, v in enumerate(spec["vertices"])]
     kb = kind_by_id(spec)
     edges = []
-    for e in spec["edges"]:
+    for ek, e in enumerate(spec["edges"]):
         t = e["type"]
         om = np.array(e["om"], dtype=float)
+        # same numbers, different memory layouts (callers hand over whatever they have): Fortran order, a non-contiguous view
+        if ek % 3 == 1:
+            om = np.asfortranarray(om)
+        elif ek % 3 == 2:
+            big = np.zeros((2 * om.shape[0], 2 * om.shape[1]))
+            big[::2, ::2] = om
+            om = big[::2, ::2]
         k0 = kb[e["ids"][0]]
         if t in ("odo", "numodo"):
             ed = I.EdgeOdometry(list(e["ids"]), om, I.mk_pose(k0, e["z"]))
